@@ -130,6 +130,14 @@ def r1_census(facts, rep, fx):
                 rep.ob("C11-R1", "unwrap:%s" % p, False, "%s calls %s" % (p, name), site)
             elif kind == "index":
                 okk, why = index_ok(facts, b, t)
+                if not okk and ("for [T; N]>::index" in name):
+                    # a range of a fixed-size array (not the source text): inside the array on every path of the interval
+                    # exploration of the function
+                    from .. import intervals
+                    done_, mf_ = b.__dict__.get("_intervals") or intervals.analyse(b)
+                    b.__dict__["_intervals"] = (done_, mf_)
+                    if done_ and blk["id"] not in mf_:
+                        okk, why = True, "array-range: within the fixed-size array on every path of the interval exploration"
                 rep.ob("C11-R1", "index:%s#%s" % (p, why.split(":")[0]), okk, "slice of the source text in %s: %s" % (p, why), site, sample={"fn": p, "range": why})
             elif kind == "recip-raw":
                 rep.ob("C11-R1", "recip:%s" % p, p == "rational::Rational::recip", "BigRational::recip is called in %s" % p, site, nontrivial=False)
@@ -178,6 +186,13 @@ def r1_census(facts, rep, fx):
                 okk = divisor_is_const(b, blk, t)
                 rep.ob("C11-R1", "assert:%s:%s" % (p, m), okk, "%s in %s: divisor is %s" % (m, p, "a non-zero constant" if okk else "NOT a constant"), b.site(sp))
             else:
+                if exc is None:
+                    # interval exploration of the function's integer locals from its entry, parameters over their whole types
+                    from .. import intervals
+                    done_, mf_ = b.__dict__.get("_intervals") or intervals.analyse(b)
+                    b.__dict__["_intervals"] = (done_, mf_)
+                    if done_ and blk["id"] not in mf_:
+                        exc = "holds on every path of the interval exploration of %s (parameters over their whole types)" % p
                 rep.ob("C11-R1", "assert:%s:%s" % (p, m), exc is not None, "compiler-inserted %s in %s%s" % (m, p, ": " + exc if exc else " is not in the exception table"),
                        b.site(sp), nontrivial=False)
     from . import c11_sub
